@@ -20,7 +20,8 @@ requested coding but holds no CDS object), its feature collections (Q, then each
 
 Operations (answers about the CHUNK-built twin unless said otherwise):
     loc      per node: <tag> <start> <end> <chromosome_location> <chunk_relative_location>
-    ident    <to_dict() of the twins equal 0|1> then per node <guid of the twins equal 0|1>
+    ident    <to_dict() of the twins equal 0|1 (entries holding an object's own digest left out)> then per node
+             <guid of the twins equal 0|1>
     seq      per node (not D): get_spliced_sequence() for F/T, get_reference_sequence() for G/Q/A   s:<letters> | x | X!<cls>
     ccodons  (D / coding T) num_codons and chromosome_codon_locations
     kcodons  (D / coding T) chunk_relative_codon_locations
@@ -28,8 +29,6 @@ Operations (answers about the CHUNK-built twin unless said otherwise):
     prot     (D / coding T) translate()   (default table, strict)
     kframes  (D / coding T) chunk_relative_frames
 """
-import functools
-
 from harness import shims
 shims.install()
 from harness.common import guarded, exc_token
@@ -156,10 +155,9 @@ def nodes(d, o):
             yield from nodes(dd, oo)
 
 
-@functools.lru_cache(maxsize=4)
 def _twins(key):
-    """key = "<letters> <ws> <we> <wst> <OBJ…>"; returns (description, chromosome twin, chunk twin) or an error token.
-    Consecutive lines about one (interval, window) reuse the objects, as a caller of the library would."""
+    """key = "<letters> <ws> <we> <wst> <OBJ…>"; returns (description, chromosome twin, chunk twin, None) or an error
+    token in the last place.  Fresh objects for every op line: no answer depends on an earlier question."""
     tk = Toks(key.split())
     letters = tk.next()
     ws, we, wst = tk.int(), tk.int(), tk.next()
@@ -175,6 +173,19 @@ def _twins(key):
         return d, None, None, "err! RecursionError"
     except Exception as e:  # noqa
         return d, None, None, exc_token(e)
+
+
+# entries of a `to_dict()` that hold the object's own digest; they are compared per node (second part of `ident`)
+DIGEST_KEYS = {"gene_guid", "feature_collection_guid", "variant_collection_guid", "transcript_interval_guid",
+               "feature_interval_guid", "variant_interval_guid"}
+
+
+def strip_digests(v):
+    if isinstance(v, dict):
+        return {k: strip_digests(x) for k, x in v.items() if k not in DIGEST_KEYS}
+    if isinstance(v, (list, tuple)):
+        return [strip_digests(x) for x in v]
+    return v
 
 
 def cell(f):
@@ -220,7 +231,7 @@ def impl_chunk_op(line):
                                f"{show_loc(o.chunk_relative_location)}")
             return "ok " + " ".join(out)
         if op == "ident":
-            deq = a.to_dict() == b.to_dict()
+            deq = strip_digests(a.to_dict()) == strip_digests(b.to_dict())
             out = [str(int(deq))]
             na, nb = list(nodes(d, a)), list(nodes(d, b))
             for (ta, _, oa), (tb, _, ob) in zip(na, nb):
